@@ -61,26 +61,20 @@ def reformat_slice(
         if sl_in.step > 0:
             start_in = 0 if sl_in.start is None else sl_in.start
             stop_in = limit_in if sl_in.stop is None else sl_in.stop
-            if sl_in.step > (stop_in - start_in):
-                step_in = stop_in - start_in
-            else:
-                step_in = sl_in.step
-
-            # what is the last included location?
-            count = int((stop_in - start_in)/float(step_in))
-            final_location = start_in + count*step_in
-            return slice(limit_in - final_location, limit_in - start_in, step_in)
+            # the number of included locations, and the last included location
+            count = (stop_in - start_in + sl_in.step - 1)//sl_in.step
+            final_location = start_in + (count - 1)*sl_in.step
+            return slice(limit_in - 1 - final_location, limit_in - start_in, sl_in.step)
         else:
             start_in = limit_in - 1 if sl_in.start is None else sl_in.start
             stop_in = -1 if sl_in.stop is None else sl_in.stop
-
-            if sl_in.step < (stop_in - start_in):
-                step_in = stop_in - start_in
-            else:
-                step_in = sl_in.step
-            count = int((stop_in - start_in) / float(step_in))
-            final_location = start_in + count*step_in
-            return slice(limit_in - final_location, limit_in - start_in, step_in)
+            # the number of included locations, and the last included location
+            count = (start_in - stop_in - sl_in.step - 1)//(-sl_in.step)
+            final_location = start_in + (count - 1)*sl_in.step
+            new_stop = limit_in - 2 - start_in
+            if new_stop < 0:
+                new_stop = None
+            return slice(limit_in - 1 - final_location, new_stop, sl_in.step)
     else:
         return sl_in
 
